@@ -621,7 +621,7 @@ func (up *SyncClient) syncNode(parent, id string) error {
 		}
 	}
 
-	if nodeDeleted {
+	if nodeDeleted && nodeLocal.ID == up.rootLocal.ID {
 		nodeUp = nodeUps[0]
 		// restore a node on the upstream
 		// update the local tombstone timestamp so it is newer than the remote tombstone timestamp
@@ -778,14 +778,15 @@ func (up *SyncClient) syncNode(parent, id string) error {
 		}
 	}
 
-	// sync child nodes
-	children, err := GetNodes(up.ncLocal, nodeLocal.ID, "all", "", false)
+	// sync child nodes, including deleted ones so that a node deleted on
+	// one side while disconnected is deleted on the other side as well
+	children, err := GetNodes(up.ncLocal, nodeLocal.ID, "all", "", true)
 	if err != nil {
 		return fmt.Errorf("Error getting local node children: %v", err)
 	}
 
 	// FIXME optimization we get the edges here and not the full child node
-	upChildren, err := GetNodes(up.ncRemote, nodeUp.ID, "all", "", false)
+	upChildren, err := GetNodes(up.ncRemote, nodeUp.ID, "all", "", true)
 	if err != nil {
 		return fmt.Errorf("Error getting upstream node children: %v", err)
 	}
